@@ -605,6 +605,10 @@ def stepCmdFlag (h : H) (s : Store) (cmd : Nat) (size : Int) : H × Store × Out
     (h, s, { ret := 0 })
   | _ => (h, s, { ret := 0, err := 0 })
 
+/-- ftruncate: cut, or extend with zero bytes -/
+def truncBytes (bs : List Byte) (n : Nat) : List Byte :=
+  if n ≤ bs.length then bs.take n else bs ++ zeros (n - bs.length)
+
 /-- SFC_FILE_TRUNCATE with a valid 8-byte argument -/
 def stepTruncate (h : H) (s : Store) (frames : Int) : H × Store × Out :=
   let h := { h with error := 0 }
@@ -613,7 +617,7 @@ def stepTruncate (h : H) (s : Store) (frames : Int) : H × Store × Out :=
   if o.ret != frames then (h, s, { ret := 1, err := h.error }) else
   let h := { h with frames := frames }
   -- psf_ftruncate: fails (EBADF -> SFE_SYSTEM) on virtual I/O, after `sf.frames` has already been changed
-  if h.canTruncate then (h, { s with bytes := s.bytes.take s.pos }, { ret := 0, err := 0 })
+  if h.canTruncate then (h, { s with bytes := truncBytes s.bytes s.pos }, { ret := 0, err := 0 })
   else ({ h with error := 2 }, s, { ret := -1, err := 2 })
 
 end Sf
